@@ -34,6 +34,15 @@ PROPS["C03"] = {
     "assumptions": ["match objects are immutable after construction (heap-by-field model of lists of matches)"],
 }
 
+PROPS["C16"] = {
+    "level": "proof",
+    "text": "ReverseComplementer.__call__ and PairedReverseComplementer.__call__ are proved against the decision rule of the statement "
+            "(reverse orientation iff it has a match and a strictly higher summed score), including the code's own assert, the name "
+            "suffix, the is_rc flag, the counter and which matches are recorded.",
+    "note": "Trusted: dnaio reverse_complement contract; AdapterCutter.match_and_trim by its (proved, C03) contract.",
+    "assumptions": ["scores are unconstrained integers (accepted matches can have negative score at high error rates)"],
+}
+
 _PENDING = "check not built yet in this revision (see DESIGN.md section 7 for the build order)"
 NOT_APPLICABLE = {
     "C12": "quantifies over fault sequences, crash points and schedules and contains a liveness clause; malformed-input detection "
